@@ -141,7 +141,7 @@ func New(opt Options) *Chain {
 		panic(err)
 	}
 	// InitChain like the handshaker does
-	c.App.InitChain(initChainReq(c.GenDoc))
+	c.App.InitChain(InitChainReq(c.GenDoc))
 	c.EvPool = sm.EmptyEvidencePool{}
 	if opt.EvPool != nil {
 		c.EvPool = opt.EvPool(c.StateStore, c.BlockStore)
